@@ -16,7 +16,8 @@ Spec == Init /\ [][Next]_cur
 Nd(i) == Log[i]
 S(j) == [book |-> j.book, sup |-> j.sup, bal |-> j.bal]
 Cfg(nd) == Log[nd.st.root].args.c
-IsStep(nd) == nd.a # "Init"
+IsStep(nd) == nd.a \notin {"Init", "Resume"}      \* "Resume" = copy of an earlier node's state heading a new chunk of a big log
+IsRoot(nd) == nd.a = "Init"
 Pre(nd) == S(Log[nd.parent].st)
 Post(nd) == S(nd.st)
 
@@ -30,12 +31,13 @@ ConfStep(nd) ==
     \/ r0.ok = nd.res.ok /\ r0.st = Post(nd)
     \/ r1.ok = nd.res.ok /\ r1.st = Post(nd)
 ConfRoot(nd) ==
-  ~IsStep(nd) => /\ \A app \in Apps, as \in Assets : ~nd.st.book[app][as].done /\ nd.st.book[app][as].n = 0
-                 /\ \A as \in Assets : nd.st.sup[as] = nd.args.c.ext[as]
+  IsRoot(nd) =>
+    /\ \A app \in Apps, as \in Assets : ~nd.st.book[app][as].done /\ nd.st.book[app][as].n = 0
+    /\ \A as \in Assets : nd.st.sup[as] = nd.args.c.ext[as]
 
 (* ------------------------------ laws ------------------------------ *)
 StepLaw(f, nd) == IsStep(nd) => Law(f, Cfg(nd), Pre(nd), Post(nd), nd.a, nd.args, nd.res.ok)
-RootLaws(nd) == ~IsStep(nd) => L_SupplyRoot(nd.args.c, Post(nd)) /\ L_ModuleEmptyRoot(nd.args.c, Post(nd))
+RootLaws(nd) == IsRoot(nd) => L_SupplyRoot(nd.args.c, Post(nd)) /\ L_ModuleEmptyRoot(nd.args.c, Post(nd))
 (* a rejected request leaves the tokenmint, bank and asset stores byte-identical *)
 RejectedDigest(nd) == IsStep(nd) /\ ~nd.res.ok => nd.st.digest = Log[nd.parent].st.digest
 
@@ -55,7 +57,7 @@ Count(P(_)) == Cardinality({i \in 1..NLog : P(Nd(i))})
 OkAct(nd, a) == nd.a = a /\ nd.res.ok
 Dev(nd) == IsStep(nd) /\ Deviates(Cfg(nd), Pre(nd), nd.a, nd.args, nd.res.ok)
 Stats == PrintT(<<"STATS", [nodes |-> NLog,
-   roots |-> Count(LAMBDA nd : ~IsStep(nd)),
+   roots |-> Count(IsRoot), resumes |-> Count(LAMBDA nd : nd.a = "Resume"),
    genesisMints |-> Count(LAMBDA nd : OkAct(nd, "MsgMint")),
    genesisAgain |-> Count(LAMBDA nd : nd.a = "MsgMint" /\ ~nd.res.ok /\ Done(Pre(nd), nd.args.app, nd.args.asset)),
    genesisUnlisted |-> Count(LAMBDA nd : nd.a = "MsgMint" /\ ~nd.res.ok /\ nd.args.app \in Apps /\ nd.args.asset \in Assets /\ ~Listed(Cfg(nd), nd.args.app, nd.args.asset)),
